@@ -265,6 +265,8 @@ package lib
 //@   requires r != nil && !held(&r.m) && rheld(&r.m) == 0
 //@   ensures @C09 @C02: forall k string :: k in result ==> k in r.decoys[ipString(darkDecoyAddr)] && r.decoys[ipString(darkDecoyAddr)][k].Valid && result[k] == r.decoys[ipString(darkDecoyAddr)][k]
 //@   ensures @C09: !held(&r.m) && rheld(&r.m) == 0
+//@   ensures @C02: fresh(result)
+//@   assigns rheld(&r.m), acq(&r.m)
 //@ loop 1:
 //@   invariant rheld(&r.m) == 1 && !held(&r.m) && fresh(regs) && original == r.decoys[ipString(darkDecoyAddr)]
 //@   invariant forall k string :: k in regs ==> k in original && original[k].Valid && regs[k] == original[k]
@@ -465,3 +467,15 @@ package lib
 //@   requires forall k pb.TransportType :: k in rm.registeredDecoys.transports ==> rm.registeredDecoys.transports[k] != nil
 //@   ensures @C11: result1 == nil ==> (forall i int :: 0 <= i && i < len(result0) ==> result0[i] != nil)
 //@   checks safety
+
+// C02: what the wrapping transports see (the implementation of transports.RegManager.GetRegistrations): every entry
+// is a currently tracked, Valid registration stored under the string form of that phantom address, under its own key.
+//@ func (regManager *RegistrationManager) GetRegistrations(phantomAddr net.IP) map[string]transports.Registration
+//@   requires regManager != nil && regManager.registeredDecoys != nil && !held(&regManager.registeredDecoys.m) && rheld(&regManager.registeredDecoys.m) == 0
+//@   let r := regManager.registeredDecoys
+//@   ensures @C02: forall k string :: k in result ==> k in r.decoys[ipString(phantomAddr)] && r.decoys[ipString(phantomAddr)][k].Valid && result[k] == box(r.decoys[ipString(phantomAddr)][k])
+//@ loop 1:
+//@   invariant fresh(convertedRegs) && regManager != nil && regManager.registeredDecoys == old(regManager.registeredDecoys)
+//@   invariant forall k string :: k in regs ==> k in r.decoys[ipString(phantomAddr)] && r.decoys[ipString(phantomAddr)][k].Valid && regs[k] == r.decoys[ipString(phantomAddr)][k]
+//@   invariant forall k string :: k in convertedRegs ==> k in regs && convertedRegs[k] == box(regs[k])
+//@   modifies mapof(convertedRegs)
